@@ -1250,6 +1250,17 @@ func (x *Exec) evalBuiltinSpec(ce *CEnv, name string, args []Expr) (*Val, bool) 
 			return &Val{Typ: boolT, T: x.b.Cmp("<", x.sRef(x.asTerm(v)), wm)}, true
 		}
 		cfail("allocated() needs a pointer, map, channel or slice")
+	case "sameArray":
+		// sameArray(s1, s2): the two slices share their backing array
+		a := x.eval(ce, args[0])
+		c := x.eval(ce, args[1])
+		if _, ok := a.Typ.Underlying().(*types.Slice); !ok {
+			cfail("sameArray() needs slices")
+		}
+		if _, ok := c.Typ.Underlying().(*types.Slice); !ok {
+			cfail("sameArray() needs slices")
+		}
+		return &Val{Typ: boolT, T: x.b.Eq(x.sRef(x.asTerm(a)), x.sRef(x.asTerm(c)))}, true
 	case "fresh":
 		// fresh(p): the reference p holds now was allocated after the old state
 		// (function entry, or loop entry inside old()): it lies at or above the old
